@@ -1,6 +1,7 @@
 # -*- coding: utf-8 -*-
 from __future__ import annotations
 
+import asyncio
 import sys
 import traceback
 from enum import Enum
@@ -355,7 +356,15 @@ class Waiting(State):
 
     async def execute(self) -> State:  # type: ignore
         # An interruption is dealt with by the caller (by raising), see ``interrupt``
-        result = await self._waiting_future
+        try:
+            result = await self._waiting_future
+        except asyncio.CancelledError:
+            # The task stepping the process was cancelled (e.g. by a timeout around ``step_until_terminated``) and asyncio
+            # cancelled the future it was blocked on along with it: re-arm the wait, so that the process can still be
+            # resumed and stepped again
+            if self._waiting_future.cancelled():
+                self._waiting_future = futures.Future(loop=self.process.loop)
+            raise
 
         # (NULL on the left: the comparison must not be left to the value, whose ``==`` may say anything or have no truth value)
         if NULL == result:
